@@ -104,6 +104,10 @@ def step (st : St) (toks : List String) : St × String :=
       | some _ => (st, showVal (getProperty arms id st.P))
       | none => (st, "err")
     | none => (st, "bad-op")
+  | ["genesis"] =>
+    -- gov InitGenesis: SetNetworkProperties(genesisState.NetworkProperties) validates the whole record and the chain
+    -- refuses to start when it is invalid (the requested values were `load`ed into P before)
+    (st, if (genesisInit opaqueSem conds st.P).isSome then "ok" else "refused")
   | ["valid"] => (st, bool01 (validate opaqueSem conds st.P))
   | ["dump"] => (st, ";".intercalate (arms.map fun a => s!"{a.id}={showVal (getProperty arms a.id st.P)}"))
   | _ => (st, "bad-op")
